@@ -22,7 +22,7 @@ LEVEL_TEXT = ("Graph colouring: 1-12 variables (1/4/9/16 for grids), 1-8 colours
               "requested number of variables, each over exactly the requested colours; one binary constraint per "
               "edge (count equal, scopes pairwise distinct, constraint graph isomorphic to the captured network); hard "
               "=> cost 0 on different colours and one positive cost on equal colours; soft => extensive, finite "
-              "non-negative weights below the hard cost; one agent per variable unless --noagents. Ising: 3-5 rows, "
+              "non-negative weights below the hard cost; one agent per variable unless --noagents. Ising: 3-5 rows (one case in five: a 3 x 10..13 strip), "
               "optional 3-5 columns, ranges, all flag combinations, generated twice from the same RNG seed in "
               "extensive and intentional form, both through generate_ising and through the command with --output "
               "(files loaded back) or on stdout. Oracle: same variables and constraint names, every constraint equal "
@@ -66,7 +66,16 @@ def coloring(draw):
 
 @st.composite
 def ising(draw):
-    c = {"target": "ising", "rows": draw(st.integers(3, 5)), "cols": draw(st.one_of(st.none(), st.integers(3, 5))),
+    # one case in five has a long side (10-13): indices with two digits, where textual and numeric order part
+    long_side = draw(st.integers(0, 4)) == 0
+    rows = draw(st.integers(3, 5))
+    cols = draw(st.one_of(st.none(), st.integers(3, 5)))
+    if long_side:
+        if draw(st.booleans()):
+            rows, cols = 3, draw(st.integers(10, 13))
+        else:
+            rows, cols = draw(st.integers(10, 13)), 3
+    c = {"target": "ising", "rows": rows, "cols": cols,
          "bin_range": draw(st.sampled_from([1.6, 0.5, 3.0, 1e-3, 100.0])),
          "un_range": draw(st.sampled_from([0.05, 0.0, 1.0, 1e-4])),
          "no_agents": draw(st.booleans()), "fg_dist": draw(st.booleans()), "var_dist": draw(st.booleans()),
